@@ -14,12 +14,14 @@ import (
 	"fmt"
 	"os"
 	"path/filepath"
+	"reflect"
 	"runtime"
 	"sort"
 	"strings"
 	"sync"
 	"sync/atomic"
 	"time"
+	"unsafe"
 
 	dbm "github.com/33cn/chain33/common/db"
 	clog "github.com/33cn/chain33/common/log"
@@ -62,7 +64,7 @@ type failure struct {
 type stats struct {
 	reads, readsOld, readsNotFound, readsShadow int64 // readsOld: expected value is an older version of a key overwritten later; readsShadow: another written key extends the read key
 	adds, dels, trashes, collected, restoreCmp  int64
-	iterScans, sweepCuts                        int64
+	iterScans, sweepCuts, stateDBReads          int64
 	extPairs                                    int
 	emptyWrites                                 int
 }
@@ -97,6 +99,8 @@ type env struct {
 	stepIdx   int
 	closeFn   func()
 	pendingTx bool
+	sdbCache  map[[2]int64]dbm.KV // StateDB objects per (version, incarnation of that version)
+	kvdbRaw   dbm.KVDB
 	last      map[string]string
 }
 
@@ -169,9 +173,45 @@ func (e *env) readVersions() []int64 {
 	return append(vs, e.top+1000, 1<<40)
 }
 
+// stateDBAt builds a real executor.StateDB over kvdb whose MVCC version is v. The exported constructor is used; the
+// version is what the unexported enableMVCC would store after local.GetVersion(stateHash) (that lookup is executed
+// here through the same SimpleMVCC and must answer v), written into the private field.
+func (e *env) stateDBAt(kvdb dbm.KVDB, v int64) dbm.KV {
+	got, err := e.simple.GetVersion(vhash(v, e.inc[v]))
+	if err != nil || got != v {
+		return nil
+	}
+	ck := [2]int64{v, int64(e.inc[v])}
+	if sdb, ok := e.sdbCache[ck]; ok {
+		return sdb
+	}
+	sdb := executor.NewStateDB(nil, vhash(v, e.inc[v]), kvdb, &executor.StateDBOption{EnableMVCC: true, Height: v})
+	f := reflect.ValueOf(sdb).Elem().FieldByName("version")
+	if !f.IsValid() || f.Kind() != reflect.Int64 {
+		return nil
+	}
+	reflect.NewAt(f.Type(), unsafe.Pointer(f.UnsafeAddr())).Elem().SetInt(v)
+	if e.sdbCache == nil {
+		e.sdbCache = map[[2]int64]dbm.KV{}
+	}
+	e.sdbCache[ck] = sdb
+	return sdb
+}
+
 // readAll compares every (key, version) read with the model; returns the read table.
 func (e *env) readAll() (map[string]string, *failure) {
 	table := map[string]string{}
+	sdbs := map[int64]dbm.KV{}
+	if e.p.Backend != "localdb" {
+		if e.kvdbRaw == nil {
+			e.kvdbRaw = dbm.NewKVDB(e.raw)
+		}
+		for v := int64(0); v <= e.top; v++ {
+			if s := e.stateDBAt(e.kvdbRaw, v); s != nil {
+				sdbs[v] = s
+			}
+		}
+	}
 	for _, k := range e.keys {
 		shadow := false
 		for other, rs := range e.model {
@@ -184,6 +224,15 @@ func (e *env) readAll() (map[string]string, *failure) {
 			e.st.reads++
 			if shadow {
 				e.st.readsShadow++
+			}
+			if sdb := sdbs[v]; sdb != nil {
+				// StateDB.Get with MVCC enabled must be the same read
+				sv, serr := sdb.Get([]byte(k))
+				e.st.stateDBReads++
+				if serr != err || string(sv) != string(got) {
+					return table, &failure{Kind: "statedb-differs-from-getv", Key: k, Ver: v, Step: e.stepIdx,
+						Detail: fmt.Sprintf("StateDB(version %d).Get(%q) = %q,%v but GetV = %q,%v", v, k, sv, serr, got, err)}
+				}
 			}
 			want, wver, ok := e.expected(k, v)
 			cell := fmt.Sprintf("%s@%d", k, v)
@@ -915,12 +964,12 @@ func run(c *lib.Ctx) {
 		"stratum ext: keys are one stem plus extensions of it by '.', digits, version-like suffixes and bytes sorting around '.' and '0'; stratum plain: unrelated keys; stratum empty: ext + empty-value writes. " +
 		"After every step each key is read at every version 0..top+1, top+1000 and 2^40 through the real GetV and compared with a map[key][]{version,value} model. " +
 		"non-trivial = the monitor saw >=1 read answered by an older version of a key that was overwritten later AND >=1 read of a key that another written key extends")
-	c.Assume("StateDB.Get with MVCC enabled is `local.GetV(key, version)` behind an unexported enableMVCC; it is covered through SimpleMVCC.GetV over the same KVDB types and through the exported executor.AddMVCC/DelMVCC wrappers, not through a StateDB instance",
+	c.Assume("StateDB.Get with MVCC enabled is read through real executor.StateDB objects built with the exported NewStateDB; the unexported enableMVCC (version := local.GetVersion(stateHash)) is mirrored by the harness: it performs the same GetVersion lookup through SimpleMVCC and stores the answer in the private `version` field via reflect/unsafe",
 		"GoMemDB/GoLevelDB iterators are trusted to order keys bytewise (decided by C06/C07)",
 		"db.LocalDB is wrapped the way executor.LocalDB wraps it (empty listing => ErrNotFound); LocalDB cannot store empty values, so on that backend every version writes >=1 key (a version without writes has an empty key-list record there and DelMVCC answers ErrNotFound: return values of DelMVCC are not part of the statement; for the same reason version 0 is never removed on that backend: SetVersionKV(hash,0) encodes Int64{0} as an empty value, which LocalDB reads as deleted, so GetVersion(hash of version 0) and DelMVCC(0) answer ErrNotFound there)")
-	nExt := c.N(1500, 80000)
-	nPlain := c.N(200, 10000)
-	nEmpty := c.N(150, 8000)
+	nExt := c.N(1500, 60000)
+	nPlain := c.N(200, 8000)
+	nEmpty := c.N(150, 6000)
 	type job struct {
 		stratum string
 		idx     int // global case index
@@ -970,6 +1019,7 @@ func run(c *lib.Ctx) {
 		c.Count("trash_sweep_cut_points", st.sweepCuts)
 		c.Count("trash_records_collected", st.collected)
 		c.Count("mvcciter_scans", st.iterScans)
+		c.Count("statedb_get_reads_with_mvcc_version", st.stateDBReads)
 		c.Count("empty_value_writes", int64(st.emptyWrites))
 		nontrivial := st.readsOld > 0 && st.readsShadow > 0
 		if jb.stratum == "plain" {
